@@ -474,6 +474,20 @@ def _random_compete(rng):
             "sampled": True}
 
 
+def _chain_compete(rng):
+    """ four or five hits of one equivalence group on one gene, each overlapping the next by more than the margin: one
+        connected overlap group whatever the order in which the pairs are met """
+    hits, start = [], rng.randrange(0, 4) * 10
+    for _ in range(rng.choice([4, 4, 5])):
+        length = rng.choice([50, 80, 120])
+        hit = {"g": "g1", "p": rng.choice(["p", "q"]), "s": start, "e": start + length, "sc": rng.randrange(1, 10)}
+        hits.append(hit)
+        start = hit["e"] - rng.choice([21, 25, 40])     # the next one starts inside this one
+    if rng.random() < 0.3:
+        hits.append({"g": "g1", "p": rng.choice(["r", "t"]), "s": hits[1]["s"] + 5, "e": hits[1]["s"] + 60, "sc": rng.randrange(1, 10)})
+    return {"op": "compete", "groups": [["p", "q"], ["r", "s"]], "hits": sorted(hits, key=_hit_sort_key), "sampled": True}
+
+
 def _perms(case, rng, limit=24):
     count = len(case["hits"])
     if count <= 4:
@@ -594,7 +608,8 @@ def run(ctx):
     mark = ctx.timer.elapsed()
     for _ in range(randoms):
         pick = rng.random()
-        case = _random_refine(rng) if pick < 0.5 else _random_nooverlap(rng) if pick < 0.7 else _random_compete(rng)
+        case = (_random_refine(rng) if pick < 0.5 else _random_nooverlap(rng) if pick < 0.7 else
+                _random_compete(rng) if pick < 0.9 else _chain_compete(rng))
         if not only or case["op"] in only:
             cases.append(case)
     timing["real_code_in_child_interpreters"] = 0.0
